@@ -52,7 +52,7 @@ RAND = {"C01": {"quick": (0, 30), "thorough": (0, 400)},
 def prepare_corpus(pid=None, tier=None):
     """Collect corpus files into work/corpus (rebuilt on every check run)."""
     import randsol
-    out = os.path.join(WORK, "corpus")
+    out = os.path.join(WORK, "corpus-%s" % pid if pid else "corpus")      # one per check: checks may run side by side
     shutil.rmtree(out, ignore_errors=True)
     os.makedirs(out)
     n = 0
